@@ -130,7 +130,7 @@ def stale_after_solve(chk, frag, nm, attrs):
     return [a for a in attrs if slv.attrs.get(a) is markers[a]]
 
 
-def build(chk):
+def _build_own(chk):
     it = chk.interp
     chk.assumptions += [
         "over the reals: 'bit-identical' additionally assumes that numpy/BLAS are deterministic on one machine (DESIGN §5.6)",
@@ -322,3 +322,11 @@ def build(chk):
                           replay=dict(rp, args=dict(rp["args"], clause="monitor-trajectory")))
                 prove("frames-recorded", len(W) > 0 and "W_solve" in frames)
             chk.run("integrator/%s/islinear=%d" % (nm, islinear), pur)
+
+
+def build(chk):
+    _build_own(chk)
+    # the cache the frame argument relies on: the Jacobian kept by a linear model is the operator and calc_jacobian leaves
+    # self.residual unspecified, so that each step of the implicit family is a function of (field, dt) only (C06, small sizes)
+    from . import C06
+    chk.include(C06, r"^size\(n=2,neq=[12]\)/", "uses:C06")
